@@ -31,10 +31,10 @@ Definition wfunc (inner : option pv) (raises : option exn) : store -> store * re
     | None => match raises with Some x => (s1, Raise x) | None => (s1, Ok (PInt 1)) end
     end.
 
-Definition check_wrapper (c : list op * pv * option pv * option exn * option exn * store) : bool :=
-  let '(start, size, inner, raises, e_obs, obs) := c in
+Definition check_wrapper (c : list op * pv * nat * option pv * option exn * option exn * store) : bool :=
+  let '(start, size, depth, inner, raises, e_obs, obs) := c in
   let s0 := run start init_cfg in
-  let '(s1, r) := wrapper (wfunc inner raises) size s0 in
+  let '(s1, r) := wrapper (nest depth (wfunc inner raises) size) size s0 in
   exn_eqb (match r with Ok _ => None | Raise x => Some x end) e_obs && obs_eqb s1 obs.
 
 (** observations are transmitted as the values only, in the key order of [init_cfg] *)
